@@ -42,9 +42,30 @@ def make_scratch():
     return base, repo, tgt
 
 
+def load_seeded():
+    """independently authored breaking changes kept under /verif/seeded/<id>/ that some check
+    reported when they were filed: they are replayed as regression mutants of that check."""
+    import ast
+    import glob
+    import json
+    out = []
+    for mp in sorted(glob.glob(os.path.join(driver.VERIF, 'seeded', '*', 'meta.json'))):
+        try:
+            d = json.load(open(mp))
+            al = d.get('checks_that_alarm')
+            al = ast.literal_eval(al) if isinstance(al, str) and al.startswith('{') else {}
+        except Exception:
+            continue
+        for p_, rc in al.items():
+            if rc == 1:
+                out.append({'id': 'seeded-' + os.path.basename(os.path.dirname(mp)), 'prop': p_, 'rule': None, 'what': d.get('summary', '')[:160],
+                            'patch': os.path.join(os.path.dirname(mp), 'patch.diff')})
+    return out
+
+
 def run(prop, say=print, only=None):
     """returns {mutants, detected, skipped, undetected: [ids], results: [...]}"""
-    muts = [m for m in load_mutants() if (prop is None or m['prop'] == prop) and (only is None or m['id'] in only)]
+    muts = [m for m in load_mutants() + load_seeded() if (prop is None or m['prop'] == prop) and (only is None or m['id'] in only)]
     res = {'mutants': len(muts), 'detected': 0, 'skipped': 0, 'not_compiling': 0, 'undetected': [], 'results': []}
     if not muts:
         return res
@@ -54,9 +75,22 @@ def run(prop, say=print, only=None):
     try:
         for m in muts:
             t0 = time.time()
-            edits = [dict(file=m['file'], old=m['old'], new=m['new'])] + [dict(file=e.get('file', m['file']), old=e['old'], new=e['new']) for e in m.get('also', [])]
             saved = {}
             applied = True
+            if 'patch' in m:
+                # a seeded patch: remember the files it touches, apply with git apply (works outside a repository)
+                touched = []
+                for line in open(m['patch']):
+                    if line.startswith('+++ b/'):
+                        touched.append(line[6:].strip())
+                for fpath in touched:
+                    pth = os.path.join(repo, fpath)
+                    saved[fpath] = open(pth).read() if os.path.exists(pth) else None
+                r = subprocess.run(['git', 'apply', '--whitespace=nowarn', m['patch']], cwd=repo, capture_output=True, text=True)
+                applied = r.returncode == 0
+                edits = []
+            else:
+                edits = [dict(file=m['file'], old=m['old'], new=m['new'])] + [dict(file=e.get('file', m['file']), old=e['old'], new=e['new']) for e in m.get('also', [])]
             for e in edits:
                 p = os.path.join(repo, e['file'])
                 if e['file'] not in saved:
@@ -79,8 +113,8 @@ def run(prop, say=print, only=None):
                 else:
                     try:
                         ctx = engine.evaluate(m['prop'], facts)
-                        hits = [o for o in ctx.obs if not o.ok and o.key not in known and o.rule == m['rule']]
-                        others = [o for o in ctx.obs if not o.ok and o.key not in known and o.rule != m['rule']]
+                        hits = [o for o in ctx.obs if not o.ok and o.key not in known and (m['rule'] is None or o.rule == m['rule'])]
+                        others = [o for o in ctx.obs if not o.ok and o.key not in known and m['rule'] is not None and o.rule != m['rule']]
                         if hits:
                             entry['outcome'] = 'detected'
                             entry['reported'] = hits[0].key
@@ -96,6 +130,12 @@ def run(prop, say=print, only=None):
                         res['undetected'].append(m['id'])
                 shutil.rmtree(facts, ignore_errors=True)
             for f, s in saved.items():
+                if s is None:
+                    try:
+                        os.remove(os.path.join(repo, f))
+                    except OSError:
+                        pass
+                    continue
                 with open(os.path.join(repo, f), 'w') as fh:
                     fh.write(s)
             entry['wall_s'] = round(time.time() - t0, 1)
